@@ -666,9 +666,10 @@ def _is_success(out):
 def _judge_relay_attempt(sub, res, T, ds, g, out, clients, stage, pattern, label):
     """Wait for the stall to begin, run the chain, judge. Returns False if the stage was never reached."""
     gevent.wait([ds.stalled, g], timeout=STEP_WATCHDOG, count=1)
-    if not ds.stalled.is_set() and stage in RESULT_ALREADY_SET and clients:
+    live = [c for c in clients if not c.dead]
+    if not ds.stalled.is_set() and stage in RESULT_ALREADY_SET and live:
         # the attempt's result is handed over before RSET / QUIT: the client greenlet goes on alone
-        gevent.wait([ds.stalled] + list(clients), timeout=STEP_WATCHDOG, count=1)
+        gevent.wait([ds.stalled] + live, timeout=STEP_WATCHDOG, count=1)
     if not ds.stalled.is_set():
         if g.dead:
             res.inconc = 'stall-stage-not-reached: %s attempt ended (%s) before stage %s' % (label, _outcome(out), stage)
@@ -740,6 +741,8 @@ def run_relay_case(sub):
             stg, act = (second['stage'], act2) if second else (None, None)
         if stg is None:
             return ('ok',)
+        if sub.get('tls') and stg == 'ehlo' and st == 'ehlo' and not ds_.conns[ctx['conn']].tls:
+            return ('ok',)              # the tls variant stalls the EHLO that follows the handshake
         if st == ('tlshandshake' if stg.endswith('handshake') else stg):
             return act
         if stg == 'rset' and st == 'data':
@@ -1075,13 +1078,25 @@ def all_subcases(tier, seed):
                     if stage != 'connect':
                         add(stall, side='relay', proto=proto, pipelining=pl, nrcpt=1 + (rnd.random() < 0.3),
                             stage=stage, pattern='partial', T=T)
-                for stage in ['rcpt0', 'rcpt1', 'data', 'eod0', 'rset', 'quit'] + (['eod1'] if proto == 'lmtp' else []):
+                two = ['rcpt0', 'rcpt1', 'data', 'eod0', 'rset', 'quit'] + (['eod1'] if proto == 'lmtp' else [])
+                for stage in two:
                     add(stall, side='relay', proto=proto, pipelining=pl, nrcpt=2, stage=stage, pattern='stall', T=T)
-                for stage in ('banner', 'ehlo', 'mail', 'data', 'eod0', 'quit'):
+                trick = ['banner', 'ehlo', 'mail', 'data', 'eod0', 'quit']
+                tlsst = ['mail', 'eod0', 'quit']
+                if tier == 'thorough':
+                    trick += ['starttls', 'auth', 'rcpt0', 'rset']
+                    tlsst += ['ehlo', 'auth', 'rcpt0', 'data', 'rset']
+                    for stage in two:
+                        add(stall, side='relay', proto=proto, pipelining=pl, nrcpt=2, stage=stage, pattern='trickle' if
+                            stage in _TRICKLE_CODE else 'partial', T=T)
+                for stage in trick:
                     add(stall, side='relay', proto=proto, pipelining=pl, nrcpt=1, stage=stage, pattern='trickle', T=T)
-                for stage in ('mail', 'eod0', 'quit'):
+                for stage in tlsst:
                     add(stall, side='relay', proto=proto, pipelining=pl, nrcpt=1, stage=stage, pattern='stall', T=T,
                         tls=True)
+                    if tier == 'thorough':
+                        add(stall, side='relay', proto=proto, pipelining=pl, nrcpt=2, stage=stage, pattern='partial', T=T,
+                            tls=True)
         for cls in ('PipeRelay', 'MaildropRelay', 'DovecotLdaRelay'):
             for pattern in sorted(_STUBS):
                 add(stall, side='pipe', stage=cls, pattern=pattern, nrcpt=2 if cls == 'PipeRelay' else 1, T=T)
@@ -1089,7 +1104,7 @@ def all_subcases(tier, seed):
             add(stall, side='http', stage='response' if pattern != 'never-accepted' else 'connect', pattern=pattern,
                 nrcpt=1, T=T)
         if tier == 'thorough':
-            firsts = ['connect', 'banner', 'mail', 'data', 'eod0']
+            firsts = ['connect', 'banner', 'ehlo', 'mail', 'rcpt0', 'data', 'eod0', 'rset', 'quit']
             seconds = ['connect', 'banner', 'ehlo', 'mail', 'rcpt0', 'data', 'eod0', 'rset', 'quit']
             for proto in ('smtp', 'lmtp'):
                 for pl in (False, True):
@@ -1129,15 +1144,29 @@ def gen_cases(tier, seed, shard, nshards):
 
 # ---------------------------------------------------------------- running and recording
 
-def mechanism(sub, clause):
+def _innermost(detail, label):
+    """Innermost slimta frame the blocked greenlet(s) sit in, from the witness."""
+    d = detail.get(label) if isinstance(detail.get(label), dict) else detail
+    b = d.get('blocked_at') or []
+    if b and isinstance(b[0], list):
+        b = [x[-1] for x in b if x]
+        return b[0] if b and all(x == b[0] for x in b) else None
+    return b[-1] if b else None
+
+
+def mechanism(sub, clause, detail=None, label='first'):
+    """<side>/<stage>/<pattern>[/<pipelining>]/<clause>.  One refinement from the witness: a greenlet that got past
+    the stalled step and is stuck in IO.close() (TLS goodbye to a peer that never answers) is classified by THAT
+    step -- stage 'close', pattern 'tls-peer-silent' -- whatever stage the peer went silent at."""
     side = sub['side']
     if side == 'relay':
         side = 'relay-' + sub['proto']
+    inner = _innermost(detail or {}, label) or ''
+    if inner.startswith('smtp/io.py:close:') and clause in ('still-blocked', 'client-greenlet-still-blocked'):
+        return '/'.join([side, 'close', 'tls-peer-silent', clause])
     parts = [side, sub['stage'], sub['pattern']]
     if sub['side'] == 'relay':
         parts.append('pipelining' if sub['pipelining'] else 'no-pipelining')
-        if sub.get('tls'):
-            parts.append('tls')
     return '/'.join(parts) + '/' + clause
 
 
@@ -1164,12 +1193,12 @@ def run_sub(sub):
     raise ValueError(side)
 
 
-def _second_mech(sub, clause):
+def _second_mech(sub, clause, detail):
     sec = sub['second']
     s2 = dict(sub)
     s2['stage'] = sec['stage']
     s2['pattern'] = ('second-stall-after-' + ('reuse' if sec.get('mode') == 'reuse' else 'reconnect'))
-    return mechanism(s2, clause)
+    return mechanism(s2, clause, detail, 'second')
 
 
 def record(sub, res, R):
@@ -1190,7 +1219,7 @@ def record(sub, res, R):
     seen = set()
     for f in res.failed:
         label, clause, what = f if len(f) == 3 else ('first',) + tuple(f)
-        mech = _second_mech(sub, clause) if label == 'second' else mechanism(sub, clause)
+        mech = _second_mech(sub, clause, res.detail) if label == 'second' else mechanism(sub, clause, res.detail)
         if (mech, what) in seen:
             continue
         seen.add((mech, what))
